@@ -236,7 +236,13 @@ def install_loggers(api, current, stubs=(), choices=(), keep_real=False):
                 if _c.native_effect is not None:
                     ba = inspect.signature(_orig).bind(*a, **kw)
                     ba.apply_defaults()
-                    call_spec(_c.native_effect, dict(ba.arguments))
+                    chosen = None
+                    for i, (label, val) in enumerate(pending):
+                        if label == _c.label + "#left":
+                            del pending[i]
+                            chosen = build(val)
+                            break
+                    call_spec(_c.native_effect, dict(ba.arguments, _chosen=chosen))
                 for i, (label, val) in enumerate(pending):
                     if label == _c.label:
                         del pending[i]
